@@ -1,59 +1,39 @@
 // C05: "A documentation comment is attached to the declaration it immediately precedes and to no other."
 // Attachment (get_comment_before, harness c05_comment_before) works on the list of CPPCommentBlocks the lexer CAPTURED;
-// this harness checks the capture of `//` comments: CPPPreprocessor::skip_cpp_comment decides whether a `//` line
+// these harnesses check the capture of `//` comments: CPPPreprocessor::skip_cpp_comment decides whether a `//` line
 // continues the previous block or starts a new one, and records text, column and line span of the block.
 //
-// Real code under test: CPPPreprocessor::skip_comment -> skip_cpp_comment (with the real _last_cpp_comment bookkeeping
-// of skip_comment), CPPPreprocessor::peek, get_line_number / get_col_number / get_file, CPPCommentBlock, std::list.
+// The claim "a `//` line continues the previous block iff that block is a `//` block that ended on the immediately
+// preceding line and only blanks lie in between; otherwise it starts a new block" is decided by two STEP harnesses over
+// the lexer state (symbolic scalars, concrete structure), which together are an induction over the bytes of the input:
+//
+//  harness_c05_cpp_comment_step: ONE `//` comment line read by the real skip_comment -> skip_cpp_comment in an arbitrary
+//    lexer state: symbolic flag _last_cpp_comment, symbolic current line L and column C, and a previous block P (present or
+//    not, `//` or C style, ending on a symbolic line PL <= L, or < L for a `//` block: such a comment runs to the end of its
+//    line).  Expected: P is continued iff the flag is set and PL == L - 1; then P's text grows by this line and P ends
+//    on L, nothing else changes; otherwise a new block {L, L, C, "//...\n"} is appended and P is untouched.  Afterwards
+//    the flag is set.
+//  harness_c05_comment_flag: ONE byte that starts no comment handed to the real skip_comment: the flag survives iff the
+//    byte is blank (so the flag means "the last thing read besides blanks was a `//` comment": code, also a lone '/',
+//    clears it -- every token starts with such a byte, get_next_token0 fetches it through skip_whitespace/skip_comment);
+//    no block is touched.
+//
+// (A whole-input harness over symbolic bytes was built first: every comparison of the lexer on a symbolic byte is a
+// branch whose two sides end at different input positions and with different block lists; after the merge the list tail
+// points into the CPPPreprocessor object or into a node, and the encoding of those accesses ran out of 16 GB for a
+// single four-byte line.)
+//
+// Real code: CPPPreprocessor::skip_comment, skip_cpp_comment, peek, get_line_number / get_col_number / get_file,
+// CPPCommentBlock, CPPFile, std::list, std::string (except _M_replace, below).
 // Replaced (cut): CPPPreprocessor::get -- the real one deletes the finished InputFile and its std::istream at the end of
-// the input (a virtual destructor call that fans out over every stream class); see the replacement below -- and
-// InputFile::get / InputFile::peek, copies that read a byte array instead of a std::istream (the `while (c == '\r')`
-// loop over a symbolic byte of the stream model unrolls to the bound at every get()); std::string::_M_replace (see below).
-//
-// Driver: what the lexer does between tokens (get_next_token0: `_last_c = skip_whitespace(get())`, skip_whitespace being
-// `loop { c = skip_comment(c); if (!isspace(c)) return c; c = get(); }` plus a backslash-newline case, not in the
-// alphabet): every byte that is not inside a comment is handed to the real skip_comment and the next byte is fetched with
-// get(); a byte that is neither blank nor part of a comment counts as a one-byte token.
-//
-// Input: TWO `//` comments A and B with a GAP in between:
-//     <prefix> // <text A> \n <gap> // <text B> \n
-// prefix: P bytes over {space, a} (code or blanks before A on its line); text A / text B: TA / TB bytes over
-// {a, space, /}; gap: G bytes over {space, newline, a} (blank lines, indentation of B, code; no comment).  The LENGTHS
-// P, TA, G, TB are concrete (every combination within the catalogue's ranges is enumerated by concrete loops inside the
-// query, which keeps every input position a constant), the BYTES are symbolic: in particular where the newlines of the
-// gap are, i.e. how many lines lie between A and B and whether they are blank.
-// (A whole-input harness with symbolic comment positions was tried first: the number of blocks then is symbolic, the
-// tail of the std::list points into the CPPPreprocessor object or into a node, and the array encoding of those accesses
-// ran out of 16 GB for a single four-byte line.)
-//
-// Reference (independent scan of the bytes): a `//` comment runs to the end of its line; it continues the previous
-// block iff only blanks and ONE newline lie between the end of that block and this `//` (the block ended on the line
-// immediately before; no code, no blank line in between); otherwise it starts a new block.  Block text = the lines
-// "//...\n" concatenated; first/last line and the column of the first `//` as counted from the bytes.
+// the input (a virtual destructor call that fans out over every stream class) -- and InputFile::get / InputFile::peek:
+// copies that read a byte array instead of a std::istream, with the original line and column accounting.
 #include "verif.h"
 #include "cppPreprocessor.h"
 #include "cppCommentBlock.h"
 #include <string>
 #include <stdio.h>
 
-#ifndef P_MAX
-#define P_MAX 1
-#endif
-#ifndef T_MIN
-#define T_MIN 0           // 1: no empty comment (a `//` directly followed by the end of its line)
-#endif
-#ifndef TA_MAX
-#define TA_MAX 2
-#endif
-#ifndef TB_MAX
-#define TB_MAX 1
-#endif
-#ifndef G_MAX
-#define G_MAX 3
-#endif
-#define TOTAL_MAX (P_MAX + 3 + TA_MAX + G_MAX + 3 + TB_MAX)
-#define RB_MAX 2
-#define TEXT_MAX (TOTAL_MAX + 2)
 #define NOINL __attribute__((noinline))
 
 // The byte source: InputFile::get / InputFile::peek (cppPreprocessor.cxx:272, :313) copied line by line, with the
@@ -108,9 +88,9 @@ int CPPPreprocessor::get() {
 
 // std::string::_M_replace (libstdc++, reached from `comment->_comment = "//"`): its aliasing test `_M_disjunct(s)`
 // compares the addresses of the literal and of the string's buffer, which is no constant for the solver's front end; the
-// (infeasible) overlapping branch then moves bytes between unrelated objects with symbolic sizes and every byte array of
-// the program, the input included, becomes symbolic.  Replaced (cut) under CBMC by the one case that occurs: the whole
-// content of a string that uses its local buffer is replaced by a short text from somewhere else.
+// (infeasible) overlapping branch then moves bytes between unrelated objects with symbolic sizes (every libc model loop
+// unrolls to the bound).  Replaced (cut) under CBMC by the one case that occurs: the whole content of a string that uses
+// its local buffer is replaced by a short text from somewhere else.  The native replay uses the real libstdc++.
 #ifndef VERIF_NATIVE
 std::string *verif_string_replace(std::string *self, size_t pos, size_t len1, const char *s, size_t len2)
   asm("_ZNSt7__cxx1112basic_stringIcSt11char_traitsIcESaIcEE10_M_replaceEmmPKcm");
@@ -148,123 +128,137 @@ static NOINL CPPPreprocessor *make_pp(const char *bytes, int total) {
   return pp;
 }
 
-static unsigned char pick3() { unsigned char k = nondet_uchar(); ASSUME(k < 3); return k; }
-static char pick_prefix() { unsigned char k = nondet_uchar(); ASSUME(k < 2); return k == 0 ? ' ' : 'a'; }
-static char pick_text() { unsigned char k = pick3(); return k == 0 ? 'a' : k == 1 ? ' ' : '/'; }
-static char pick_gap() { unsigned char k = pick3(); return k == 0 ? ' ' : k == 1 ? '\n' : 'a'; }
 
-struct RefBlock { int first, last, col, len; char text[TEXT_MAX + 1]; };
-struct Ref { int nblocks, ntokens, maxtext; bool empty_comment; RefBlock blk[RB_MAX + 1]; };
+#ifndef T_MIN
+#define T_MIN 0           // 1: no empty comment (a `//` directly followed by the end of its line)
+#endif
+#ifndef T_MAX
+#define T_MAX 2           // bytes of text after the `//`
+#endif
+#define LINE_MAX 1000000
+#define COL_MAX 1000
 
-// the reference scan
-static NOINL void reference(const char *b, int total, Ref *r) {
-  r->nblocks = 0; r->ntokens = 0; r->maxtext = 0;
-  r->empty_comment = false;
-  int line = 1, col = 1, skip = 0, textlen = 0;
-  bool in_comment = false, only_blank_since = false;
-  for (int i = 0; i < TOTAL_MAX; i++) {
-    if (i >= total) break;
-    char ch = b[i];
-    RefBlock *cur = &r->blk[r->nblocks > 0 ? r->nblocks - 1 : 0];
-    if (skip > 0) {                      // the second '/' of a `//`
-      skip--;
-      cur->text[cur->len++] = ch;
-      col++;
-      continue;
-    }
-    if (in_comment) {
-      cur->text[cur->len++] = ch;
-      if (ch == '\n') { in_comment = false; line++; col = 1; }
-      else { col++; textlen++; if (textlen > r->maxtext) r->maxtext = textlen; }
-      continue;
-    }
-    if (ch == '/' && i + 1 < total && b[i + 1] == '/') {
-      bool continues = only_blank_since && r->nblocks > 0 && cur->last == line - 1;
-      if (!continues) {
-        cur = &r->blk[r->nblocks++];
-        cur->first = line; cur->col = col; cur->len = 0;
-      }
-      cur->last = line;
-      cur->text[cur->len++] = '/';
-      skip = 1;
-      textlen = 0;
-      in_comment = true;
-      only_blank_since = true;
-      if (i + 2 < total && b[i + 2] == '\n') r->empty_comment = true;
-      col++;
-      continue;
-    }
-    if (ch == '\n') { line++; col = 1; continue; }
-    if (ch != ' ') { only_blank_since = false; r->ntokens++; }
-    col++;
-  }
-}
-
-static NOINL bool text_equal(const std::string &s, const RefBlock *rb) {
-  if (s.size() != (size_t)rb->len) return false;
-  for (int k = 0; k < TEXT_MAX; k++) {
-    if (k >= rb->len) break;
-    if (s[k] != rb->text[k]) return false;
-  }
+static NOINL bool same_text(const std::string &s, const char *want, int n) {
+  if (s.size() != (size_t)n) return false;
+  for (int k = 0; k < n; k++)
+    if (s[k] != want[k]) return false;
   return true;
 }
 
-static NOINL void scenario(int np, int na, int ng, int nb) {
-  static char b[TOTAL_MAX + 1];
+// kind of previous block: 0 none, 1 a `//` block, 2 a C-style block
+static NOINL void step(int prev_kind, int ntext, char text_char) {
+  // the line:  //<text>\n  followed by one more byte
+  static char b[8];
   int total = 0;
-  for (int k = 0; k < np; k++) b[total++] = pick_prefix();
   b[total++] = '/'; b[total++] = '/';
-  for (int k = 0; k < na; k++) b[total++] = pick_text();
+  for (int k = 0; k < ntext; k++) b[total++] = text_char;
   b[total++] = '\n';
-  for (int k = 0; k < ng; k++) b[total++] = pick_gap();
-  b[total++] = '/'; b[total++] = '/';
-  for (int k = 0; k < nb; k++) b[total++] = pick_text();
-  b[total++] = '\n';
-
-  static Ref ref;
-  reference(b, total, &ref);
-
+  b[total++] = 'z';
   CPPPreprocessor *pp = make_pp(b, total);
-  int c = pp->get();
-  for (int step = 0; step < total + 1; step++) {
-    if (c == EOF) break;
-    c = pp->skip_comment(c);
-    if (c == EOF) break;
-    c = pp->get();
+
+  // symbolic lexer state: position of the first '/', flag, previous block
+  int L = nondet_int(), C = nondet_int();
+  ASSUME(L >= 1 && L <= LINE_MAX && C >= 1 && C <= COL_MAX);
+  pp->_infile->_next_line_number = L;
+  pp->_infile->_next_col_number = C;
+  bool flag = nondet_bool();
+  pp->_last_cpp_comment = flag;
+  CPPCommentBlock *prev = nullptr;
+  int PF = 0, PL = 0, PC = 0;
+  const char *prev_text = (prev_kind == 2) ? "/*p*/" : "//p\n";
+  const int prev_len = (prev_kind == 2) ? 5 : 4;
+  if (prev_kind != 0) {
+    PF = nondet_int(); PL = nondet_int(); PC = nondet_int();
+    ASSUME(PF >= 1 && PF <= PL && PC >= 1 && PC <= COL_MAX);
+    if (prev_kind == 1) ASSUME(PL < L);       // a `//` comment runs to the end of its line
+    else { ASSUME(PL <= L); ASSUME(!flag); }  // skip_comment clears the flag before it reads a C comment
+    prev = new CPPCommentBlock;
+    prev->_line_number = PF; prev->_last_line = PL; prev->_col_number = PC;
+    prev->_c_style = (prev_kind == 2);
+    for (int k = 0; k < prev_len; k++) prev->_comment.push_back(prev_text[k]);
+    pp->_comments.push_back(prev);
   }
-  ASSERT(c == EOF, "C05 the whole input was read");
+
+  int c = pp->get();                     // the first '/'
+  int r = pp->skip_comment(c);           // REAL: peeks the second '/', reads it, skip_cpp_comment(get())
 
 #ifdef VERIF_NATIVE
-  printf("input (%d bytes): \"", total);
-  for (int i = 0; i < total; i++) { if (b[i] == '\n') printf("\\n"); else putchar(b[i]); }
-  printf("\"\nreference: %d block(s)\n", ref.nblocks);
-  for (int k = 0; k < ref.nblocks; k++) printf("  lines %d..%d col %d len %d\n", ref.blk[k].first, ref.blk[k].last, ref.blk[k].col, ref.blk[k].len);
-  printf("captured: %d block(s)\n", (int)pp->_comments.size());
-  for (CPPComments::const_iterator ci = pp->_comments.begin(); ci != pp->_comments.end(); ++ci)
-    printf("  lines %d..%d col %d len %d\n", (*ci)->_line_number, (*ci)->_last_line, (*ci)->_col_number, (int)(*ci)->_comment.size());
+  printf("prev_kind=%d ntext=%d L=%d C=%d flag=%d PF=%d PL=%d -> %d block(s), back: lines %d..%d col %d len %d\n", prev_kind, ntext,
+         L, C, (int)flag, PF, PL, (int)pp->_comments.size(), pp->_comments.back()->_line_number, pp->_comments.back()->_last_line,
+         pp->_comments.back()->_col_number, (int)pp->_comments.back()->_comment.size());
 #endif
 
-  ASSERT((int)pp->_comments.size() == ref.nblocks,
-         "C05 a // line continues the previous block iff that block ended on the line before and only blanks lie in between");
-  CPPComments::const_iterator ci = pp->_comments.begin();
-  for (int k = 0; k < RB_MAX; k++) {
-    if (k >= ref.nblocks || ci == pp->_comments.end()) break;
-    const CPPCommentBlock *got = *ci;
-    const RefBlock *want = &ref.blk[k];
-    ASSERT(!got->_c_style, "C05 a // block is not C-style");
-    ASSERT(got->_line_number == want->first, "C05 first line of a // comment block");
-    ASSERT(got->_last_line == want->last, "C05 last line of a // comment block");
-    ASSERT(got->_col_number == want->col, "C05 column of a // comment block");
-    ASSERT(text_equal(got->_comment, want), "C05 text of a // comment block");
-    ++ci;
+  ASSERT(r == '\n', "C05 a // comment ends with its line");
+  ASSERT(pp->_last_cpp_comment, "C05 after a // comment the flag _last_cpp_comment is set");
+  // the reference: continue the previous block iff it is a `//` block, nothing but blanks was read since (flag) and it
+  // ended on the immediately preceding line
+  bool continues = prev_kind == 1 && flag && PL == L - 1;
+  char line[8]; int n = 0;
+  line[n++] = '/'; line[n++] = '/';
+  for (int k = 0; k < ntext; k++) line[n++] = text_char;
+  line[n++] = '\n';
+  if (continues) {
+    ASSERT(pp->_comments.size() == 1 && pp->_comments.back() == prev,
+           "C05 a // line continues the previous block iff that block ended on the line before and only blanks lie in between");
+    char want[16]; int m = 0;
+    for (int k = 0; k < prev_len; k++) want[m++] = prev_text[k];
+    for (int k = 0; k < n; k++) want[m++] = line[k];
+    ASSERT(same_text(prev->_comment, want, m), "C05 text of a // comment block");
+    ASSERT(prev->_line_number == PF, "C05 first line of a // comment block");
+    ASSERT(prev->_last_line == L, "C05 last line of a // comment block");
+    ASSERT(prev->_col_number == PC && !prev->_c_style, "C05 column of a // comment block");
+  } else {
+    ASSERT(pp->_comments.size() == (size_t)(prev_kind != 0 ? 2 : 1) && pp->_comments.back() != prev,
+           "C05 a // line continues the previous block iff that block ended on the line before and only blanks lie in between");
+    const CPPCommentBlock *nb = pp->_comments.back();
+    ASSERT(same_text(nb->_comment, line, n), "C05 text of a // comment block");
+    ASSERT(nb->_line_number == L, "C05 first line of a // comment block");
+    ASSERT(nb->_last_line == L, "C05 last line of a // comment block");
+    ASSERT(nb->_col_number == C && !nb->_c_style, "C05 column of a // comment block");
+    if (prev != nullptr) {
+      ASSERT(pp->_comments.front() == prev && same_text(prev->_comment, prev_text, prev_len) && prev->_line_number == PF &&
+             prev->_last_line == PL && prev->_col_number == PC && prev->_c_style == (prev_kind == 2),
+             "C05 a block that is not continued is left alone");
+    }
   }
 }
 
-extern "C" void harness_c05_cpp_comments() {
-  for (int np = 0; np <= P_MAX; np++)
-    for (int na = T_MIN; na <= TA_MAX; na++)
-      for (int ng = 0; ng <= G_MAX; ng++)
-        for (int nb = T_MIN; nb <= TB_MAX; nb++)
-          scenario(np, na, ng, nb);
+#ifndef PREV_FROM
+#define PREV_FROM 0
+#endif
+#ifndef PREV_TO
+#define PREV_TO 2
+#endif
+extern "C" void harness_c05_cpp_comment_step() {
+  // texts after the `//`: length T_MIN..T_MAX; the first byte enumerated over {a / space}, later bytes alternate
+  static const char first[3] = {'a', '/', ' '};
+  for (int prev_kind = PREV_FROM; prev_kind <= PREV_TO; prev_kind++)
+    for (int ntext = T_MIN; ntext <= T_MAX; ntext++)
+      for (int t = 0; t < (ntext == 1 ? 3 : 1); t++)
+        step(prev_kind, ntext, first[(t + ntext + 1) % 3]);
+  WITNESS();
+}
+
+// ---- the flag: one byte that starts no comment ------------------------------------------------------------------------------
+extern "C" void harness_c05_comment_flag() {
+  static char b[4];
+  unsigned char c0 = nondet_uchar(), c1 = nondet_uchar();
+  ASSUME(c0 != 0 && c1 != 0 && c0 != '\r' && c1 != '\r');             // '\0' is the empty unget slot, '\r' is dropped by InputFile::get
+  ASSUME(!(c0 == '/' && (c1 == '/' || c1 == '*')));                   // c0 starts no comment
+  b[0] = (char)c0; b[1] = (char)c1; b[2] = '\n';
+  CPPPreprocessor *pp = make_pp(b, 3);
+  bool flag = nondet_bool();
+  pp->_last_cpp_comment = flag;
+  CPPCommentBlock *prev = new CPPCommentBlock;
+  prev->_line_number = 1; prev->_last_line = 1; prev->_col_number = 1; prev->_c_style = false;
+  pp->_comments.push_back(prev);
+  int c = pp->get();
+  int r = pp->skip_comment(c);
+  bool blank = c0 == ' ' || c0 == '\t' || c0 == '\n' || c0 == '\v' || c0 == '\f';
+  ASSERT(r == c0, "C05 a byte that starts no comment is handed back");
+  ASSERT(pp->_last_cpp_comment == (blank && flag), "C05 the flag _last_cpp_comment survives blanks only");
+  ASSERT(pp->_comments.size() == 1 && pp->_comments.back() == prev && prev->_comment.empty() && prev->_last_line == 1,
+         "C05 a byte that starts no comment touches no block");
+  ASSERT(g_pos == 1, "C05 a byte that starts no comment consumes nothing else");
   WITNESS();
 }
